@@ -514,7 +514,7 @@ def _known_not_none(x):
         return not _isnone(x)      # arithmetic combination
     if at.kind == 'sym':
         return at.args[0] in NOTNONE
-    if at.kind == 'call' and at.args[0] in NUMERIC_RESULT:
+    if at.kind == 'call' and (at.args[0] in NUMERIC_RESULT or at.args[0] in NOTNONE_CALLS):
         return True            # numpy constructors / elementwise functions return arrays or numbers, never None
     if at.kind == 'sub':
         ba = at.args[0].single_atom()
@@ -523,7 +523,8 @@ def _known_not_none(x):
     return at.kind in ('str', 'tuple', 'list', 'dict', 'closure', 'new', 'bool', 'seq', 'func', 'class')
 
 
-NUMERIC_RESULT = {'meshgrid', 'zeros', 'ones', 'full', 'empty', 'linspace', 'arange', 'array', 'diff', 'reshape', 'repeat',
+NOTNONE_CALLS = set()      # package functions whose every return statement yields a value that cannot be None (model.py)
+NUMERIC_RESULT = {'trunc', 'floordiv', 'mod', 'min', 'max', 'meshgrid', 'zeros', 'ones', 'full', 'empty', 'linspace', 'arange', 'array', 'diff', 'reshape', 'repeat',
                   'concatenate', 'append', 'abs', 'sqrt', 'exp', 'log', 'cos', 'sin', 'round', 'floor', 'ceil', 'mean', 'sum',
                   'std', 'cumsum', 'len', 'int', 'float', 'astype', 'real', 'imag', 'maximum', 'minimum', 'clip', 'where',
                   'tile', 'flip', 'transpose', 'fft', 'fftshift', 'rfft', 'frombuffer', 'copy'}
